@@ -415,3 +415,408 @@ def huge_batch(case, ctx):
     for k, name in enumerate(("S_d", "S_v", "S_a")):
         both = np.concatenate([lo[k], hi[k]])
         ctx.close(whole[k], both, 1e-10 * np.abs(both) + core.TINY, "pseudo %s: whole list of %d periods vs two batches (%d samples)" % (name, case["np"], case["n"]))
+
+
+# ---------------------------------------------------------------------------
+# mid-range sizes: long records, many periods, large (periods x samples) products
+#
+# The relations above are drawn for n <= 1500 and <= 7 periods ('many-periods': one transposition in 1001-1600 periods of a
+# 40-sample record).  A code path that exists only inside a window of sizes - a loop blocked over the periods or the samples,
+# a streamed spectrum above some (periods x samples) budget - is exercised by the enumerations below: one size in every
+# octave of every size dimension, all relations at every size, every row and every sample compared.
+
+from pbt.ref import sdof_mid as mid  # noqa: E402
+
+ASSUMPTIONS.extend([
+    "mid-range enumerations: records of up to 1.2e5 (thorough 6e5) samples, 1..3000 (6000) periods, periods x samples up to 3e7 "
+    "(6e7); noise x envelope / noise + mean / sines + noise records (non-zero mean, no silent stretch), 60 % of them ending in a "
+    "burst (last 3-60 samples x 25) so that peaks sit at the very end of the record; long period lists are "
+    "distinct, unsorted, log-spread over a hash-chosen sub-range of [0.2, 2e4] dt",
+    "rounding model at length n: (1e-10 + 16*eps*n) of the energy-consistent robust scale S_u = max(s_u, s_v/w), S_v = max(s_v, w*s_u) "
+    "(s_u, s_v the robust scales above), S_a = 2 xi w S_v + w^2 S_u: each of the n steps of the recurrence rounds its state by "
+    "<= 4 eps of the state's energy norm and a free vibration never gains energy, so the rounding of two mathematically equal "
+    "runs differs by <= 8 eps n of the peak energy norm (16 eps n leaves a factor 2); 1e-10 is the floor the short clauses use",
+    "spectra vs series (mid-range only, declared differential between public entry points): S_d of pseudo_response_spectra and "
+    "S_d, S_v, S_a of true_response_spectra equal the row-wise max|.| of response_series for the same arguments, to the rounding "
+    "model above; S_a is not compared for T < 6.001 dt nor for T = 0 (C03 owns the substitution rule there), pseudo S_v / S_a are C03's",
+    "mid-range shift / causality are asserted bit-for-bit between calls with the same period list (same operations)",
+])
+
+
+def _tol_n(n):
+    return 1e-10 + 16 * EPS * n
+
+
+def _oct(prefix, v):
+    return "%s~2^%d" % (prefix, int(np.floor(np.log2(max(1, v)))))
+
+
+def _escales(a, dt, T, xi, ru, rv):
+    """Energy-consistent robust scales (S_u, S_v, S_a) per row from library series."""
+    su, sv, _ = ref.lib_scales(a, dt, T, xi, ru, rv)
+    w = 2 * np.pi / T
+    Su = np.maximum(su, sv / w)
+    Sv = np.maximum(sv, w * su)
+    return Su, Sv, 2 * xi * w * Sv + w ** 2 * Su
+
+
+def _close_rows(ctx, got, want, tol_rows, what):
+    """|got - want| <= tol_rows[:, None] on every element; chunked over rows (no giant temporaries); reports row / sample."""
+    got, want = np.asarray(got), np.asarray(want)
+    if got.shape != want.shape:
+        ctx.fail("%s: shape %s vs %s" % (what, got.shape, want.shape))
+    p, n = got.shape
+    rows = max(1, (1 << 21) // max(1, n))
+    tol_rows = np.asarray(tol_rows, dtype=float)
+    for j0 in range(0, p, rows):
+        d = np.abs(got[j0:j0 + rows] - want[j0:j0 + rows])
+        bad = ~(d <= tol_rows[j0:j0 + rows, None] + core.TINY)
+        key = "used:" + what.split(":")[-1].strip().split(",")[0][:40]
+        ctx.notes[key] = max(ctx.notes.get(key, 0.0), float(np.max(np.max(d, axis=1) / (tol_rows[j0:j0 + rows] + core.TINY))))
+        if np.any(bad):
+            r, c = np.argwhere(bad)[0]
+            ctx.fail("%s: |diff|=%.4g > tol=%.4g at row %d (of %d) sample %d (of %d): got %r expected %r (%d elements out in this block of rows)" % (
+                what, d[r, c], tol_rows[j0 + r], j0 + r, p, c, n, got[j0 + r, c], want[j0 + r, c], int(np.sum(bad))))
+
+
+def _equal_rows(ctx, got, want, what):
+    got, want = np.asarray(got), np.asarray(want)
+    if got.shape != want.shape:
+        ctx.fail("%s: shape %s vs %s" % (what, got.shape, want.shape))
+    if not np.array_equal(got, want):
+        bad = np.argwhere(~(got == want))
+        i = tuple(int(x) for x in bad[0])
+        ctx.fail("%s: not equal at row %d sample %d (shape %s): %r vs %r (%d elements differ)" % (
+            what, i[0], i[1], got.shape, got[i], want[i], len(bad)))
+
+
+def _rowmax(x):
+    return np.max(np.abs(np.asarray(x)), axis=1)
+
+
+def _burst(a, length):
+    """Optionally end the record with a strong burst (the last `length` samples x 25): the peaks of the quasi-static rows then
+    sit in the last samples, so a reduction that drops the end of the record cannot hide."""
+    if length:
+        a = a.copy()
+        a[-int(length):] *= 25.0
+    return a
+
+
+def _mk_periods(T, lead0, container, ints=None):
+    """Period argument: float ndarray | list of python floats | tuple | python ints (when ints is given)."""
+    if ints is not None:
+        return ([0] if lead0 else []) + [int(t) for t in ints]
+    vals = ([0.0] if lead0 else []) + [float(t) for t in T]
+    if container == "list":
+        return vals
+    if container == "tuple":
+        return tuple(vals)
+    return np.array(vals)
+
+
+def _check_spectra_vs_series(ctx, a, dt, P, T, s, xi, series, scales, tol, what, fns=("pseudo", "true")):
+    """pseudo S_d and true S_d / S_v / S_a of the same arguments equal the row-wise max|.| of the series."""
+    Su, Sv, Sa = scales
+    mu, mv, ma = _rowmax(series[0]), _rowmax(series[1]), _rowmax(series[2])
+    amax = float(np.max(np.abs(a)))
+    if "pseudo" in fns:
+        ps = ctx.lib(sdof.pseudo_response_spectra, a, dt, P, xi)
+        ctx.check(isinstance(ps, (tuple, list)) and len(ps) == 3, "%s: pseudo_response_spectra does not return a triple" % what)
+        for x, name in zip(ps, ("S_d", "S_v", "S_a")):
+            ctx.shape(x, (len(T) + s,), "%s: pseudo %s" % (what, name))
+        ctx.close(np.asarray(ps[0])[s:], mu[s:], tol * Su, "%s: pseudo S_d vs row-wise max|u| of response_series" % what)
+        if s:
+            ctx.check(np.asarray(ps[0])[0] == 0, "%s: pseudo S_d of the T=0 entry is not 0" % what)
+    if "true" in fns:
+        ts = ctx.lib(sdof.true_response_spectra, a, dt, P, xi)
+        ctx.check(isinstance(ts, (tuple, list)) and len(ts) == 3, "%s: true_response_spectra does not return a triple" % what)
+        for x, name in zip(ts, ("S_d", "S_v", "S_a")):
+            ctx.shape(x, (len(T) + s,), "%s: true %s" % (what, name))
+        ctx.close(np.asarray(ts[0])[s:], mu[s:], tol * Su, "%s: true S_d vs row-wise max|u| of response_series" % what)
+        ctx.close(np.asarray(ts[1])[s:], mv[s:], tol * Sv, "%s: true S_v vs row-wise max|v| of response_series" % what)
+        keep = (T / dt) >= 6.001
+        if np.any(keep):
+            ctx.close(np.asarray(ts[2])[s:][keep], ma[s:][keep], tol * (Sa[keep] + amax), "%s: true S_a vs row-wise max of the third series" % what)
+        if s:
+            ctx.check(np.asarray(ts[0])[0] == 0 and np.asarray(ts[1])[0] == 0, "%s: true S_d / S_v of the T=0 entry are not 0" % what)
+
+
+def _check_shift_causal_linear(ctx, a, dt, P, T, s, xi, R1, scales, hs, what):
+    """Three relations with two more calls on the same period list (a[0] must be 0):
+    call 2: zeros(k) ++ a ++ tail2          -> zero before k, equal to R1 on [k, k+n) bit for bit (shift + causality);
+    call 3: alpha*(a ++ tail) + beta*(zeros(k) ++ a), length n+k -> alpha*R1 + beta*R2 on [0, n) (linearity, causality)."""
+    n = len(a)
+    k = mid.hint(1, 997, "k", hs)
+    k2 = mid.hint(1, 500, "k2", hs)
+    rs = np.random.RandomState(hs % (2 ** 31 - 1))
+    tail2 = rs.standard_normal(k2) + 0.5
+    tail = rs.standard_normal(k) - 0.5
+    al = (1.0 if mid.hu("als", hs) < 0.5 else -1.0) * mid.hlog(0.3, 3.0, "al", hs)
+    be = (1.0 if mid.hu("bes", hs) < 0.5 else -1.0) * mid.hlog(0.3, 3.0, "be", hs)
+    R2 = ctx.lib(sdof.response_series, np.concatenate([np.zeros(k), a, tail2]), dt, P, xi)
+    for j, name in enumerate(("displacement", "velocity", "acceleration")):
+        x = np.asarray(R2[j])
+        ctx.shape(x, (len(T) + s, n + k + k2), "%s: %s of the shifted record" % (what, name))
+        ctx.check(not np.any(x[:, :k]), "%s: %s is non-zero before the record shifted by %d samples starts" % (what, name, k))
+        _equal_rows(ctx, x[:, k:k + n], np.asarray(R1[j]), "%s: %s delayed by %d samples (and %d later samples appended)" % (what, name, k, k2))
+    b = np.concatenate([np.zeros(k), a])
+    c = al * np.concatenate([a, tail]) + be * b
+    R3 = ctx.lib(sdof.response_series, c, dt, P, xi)
+    Su, Sv, Sa = scales
+    tol = _tol_n(n + k)
+    err_in = 4 * EPS * float(np.sum(abs(al) * np.abs(a)) + np.sum(abs(be) * np.abs(a)) + abs(al) * np.sum(np.abs(tail)))
+    bu, bv, ba = ref.perturbation_bounds(err_in, dt, n + k, T, xi)
+    mix = abs(al) + abs(be)
+    for j, (name, S, pb) in enumerate((("displacement", Su, bu), ("velocity", Sv, bv), ("acceleration", Sa, ba))):
+        x = np.asarray(R3[j])
+        ctx.shape(x, (len(T) + s, n + k), "%s: %s of the combined record" % (what, name))
+        _close_rows(ctx, x[s:, :n], al * np.asarray(R1[j])[s:] + be * np.asarray(R2[j])[s:, :n], tol * mix * S + pb,
+                    "%s: linearity of %s, %.4g*a + %.4g*(a delayed by %d), first %d samples" % (what, name, al, be, k, n))
+    if s:
+        ctx.close(np.asarray(R3[2])[0, :n], -(c[:n]), 0.0, "%s: T=0 row of the combined record" % what)
+
+
+def _c02_cfg(tier):
+    if tier == "quick":
+        return dict(n=(2000, 120000, 10, "c02-n"), n_mined=(2000, 50000, 3),
+                    p=(7, 3000, 10, "c02-p", 6), pn=(100, 800),
+                    prod=(1e5, 3e7, 10, "c02-prod"), prod_p=(8, 3000), prod_n=(400, 100000), sub_budget=1.0e5)
+    return dict(n=(2000, 600000, 22, "c02-n-th"), n_mined=(2000, 200000, 10),
+                p=(7, 6000, 24, "c02-p-th", 16), pn=(100, 2000),
+                prod=(1e5, 6e7, 22, "c02-prod-th"), prod_p=(8, 6000), prod_n=(400, 300000), sub_budget=4e5)
+
+
+def _sharded(cases, shard, nshards, cost):
+    cases = sorted(cases, key=lambda c: (-cost(c), core.canon(c)))
+    for i, c in enumerate(cases):
+        if i % nshards == shard:
+            yield c
+
+
+REL_COST = {"shift-causal-linear": 3.0, "batch-spectra": 4.0, "refine": 1.5}
+
+
+def _mk_n_case(n, rel, idx):
+    sd = int(mid.hu("c02-long", gen.run_seed(), idx, n, rel) * (2 ** 31 - 2))
+    c = {"n": int(n), "rel": rel, "seed": sd, "kind": mid.hpick(mid.RECORD_KINDS[:3], "kind", sd), "dt": mid.dt_from_hash(sd),
+         "xi": mid.xi_from_hash(sd), "lead0": mid.hu("lead0", sd) < 0.4, "container": mid.hpick(["ndarray", "list", "tuple"], "cont", sd),
+         "burst": mid.hint(3, 60, "burst", sd) if mid.hu("has-burst", sd) < 0.6 else 0}
+    if rel == "refine":
+        c["m"] = mid.hint(2, 8, "m", sd)
+        c["ratios"] = mid.ratios_from_hash(mid.hint(1, 4, "np", sd), 0.2, 2e4 / c["m"], sd)
+    else:
+        c["ratios"] = mid.ratios_from_hash(mid.hint(2, 6, "np", sd), 0.2, 2e4, sd)
+    return c
+
+
+def _c02_n_enum(tier, shard, nshards):
+    cfg = _c02_cfg(tier)
+    lo, hi, count, tag = cfg["n"]
+    sizes = sorted(set(gen.ladder(lo, hi, count, tag)) | set(gen.mined_sizes(cfg["n_mined"][0], cfg["n_mined"][1], cfg["n_mined"][2], tag)))
+    cases = []
+    for k, n in enumerate(sizes):
+        for r, rel in enumerate(("shift-causal-linear", "batch-spectra", "refine")):
+            cases.append(_mk_n_case(n, rel, 3 * k + r))
+    return _sharded(cases, shard, nshards, lambda c: c["n"] * REL_COST[c["rel"]])
+
+
+@enum_clause(CLAUSES, "mid-range", _c02_n_enum,
+             rule="record-length ladder: one length per logarithmic bin of [2000, 1.2e5] (10 bins; thorough [2000, 6e5], 22 bins) placed by a "
+                  "hash of VERIF_SEED, and lengths next to integer literals of the source under test; at every length "
+                  "three cases: (shift + causality + linearity: k <= 997 zeros prepended and later samples appended; alpha*a + beta*(a delayed)), "
+                  "(batch + spectra: a permuted proper sub-list of the 2-6 periods; pseudo / true spectra against the series), "
+                  "(refinement x2..8 whose refined record has the ladder length); optional leading 0; non-trivial = non-zero record",
+             oracle="metamorphic on the whole output: shift / causality array_equal; linearity, batch and spectra-vs-series to "
+                    "(1e-10 + 16 eps n) of the energy-consistent robust scale (+ input-rounding bound); refinement to tol_C01(dt)+tol_C01(dt/m)",
+             exhaustive_note="three cases per ladder length (the lengths move with VERIF_SEED)", min_nontrivial=0.5, quick_shards=4)
+def mid_range(case, ctx):
+    n, dt, xi, rel = case["n"], case["dt"], case["xi"], case["rel"]
+    s = 1 if case["lead0"] else 0
+    T = np.array([float(r) * dt for r in case["ratios"]])
+    P = _mk_periods(T, s, case["container"])
+    ctx.cls(_oct("n", n), "rel=" + rel, "lead0" if s else None, "T<6dt" if np.any(T / dt < 6) else None,
+            "T>100dt" if np.any(T / dt > 100) else None, "xi=0" if xi == 0 else None)
+    ctx.nt(True)
+    if rel == "refine":
+        m = case["m"]
+        n0 = (n - 1) // m + 1
+        a = mid.record(case["kind"], n0, case["seed"])
+        fine = np.interp(np.arange((n0 - 1) * m + 1) / float(m), np.arange(n0), a)
+        fine[::m] = a
+        ctx.cls("m=%d" % m)
+        what = "refinement x%d of %d samples to %d" % (m, n0, len(fine))
+        r1 = ctx.lib(sdof.response_series, a, dt, P, xi)
+        r2 = ctx.lib(sdof.response_series, fine, dt / m, P, xi)
+        su, sv, sa = ref.lib_scales(a, dt, T, xi, np.asarray(r1[0])[s:], np.asarray(r1[1])[s:])
+        dur = (n0 - 1) * dt
+        tol = ref.tol_c01(dur, T, dt, relaxed=True) + ref.tol_c01(dur, T, dt / m, relaxed=True)
+        err_in = 4 * EPS * float(np.sum(np.abs(fine)))
+        bu, bv, ba = ref.perturbation_bounds(err_in, dt / m, len(fine), T, xi)
+        ctx.shape(r2[0], (len(T) + s, len(fine)), what + ": refined displacement")
+        _close_rows(ctx, np.asarray(r2[0])[s:, ::m], np.asarray(r1[0])[s:], tol * su + bu, what + ": displacement at the original instants")
+        _close_rows(ctx, np.asarray(r2[1])[s:, ::m], np.asarray(r1[1])[s:], tol * sv + bv, what + ": velocity at the original instants")
+        return
+    a = _burst(mid.record(case["kind"], n, case["seed"]), case.get("burst"))
+    a[0] = 0.0
+    ctx.cls("end-burst" if case.get("burst") else None)
+    R1 = ctx.lib(sdof.response_series, a, dt, P, xi)
+    for x, name in zip(R1, ("displacement", "velocity", "acceleration")):
+        ctx.shape(x, (len(T) + s, n), "response %s" % name)
+    scales = _escales(a, dt, T, xi, np.asarray(R1[0])[s:], np.asarray(R1[1])[s:])
+    if rel == "shift-causal-linear":
+        _check_shift_causal_linear(ctx, a, dt, P, T, s, xi, R1, scales, case["seed"], "%d samples, %d periods" % (n, len(T)))
+        return
+    # batch + spectra
+    what = "%d samples, %d periods" % (n, len(T))
+    tol = _tol_n(n)
+    _check_spectra_vs_series(ctx, a, dt, P, T, s, xi, R1, scales, tol, what)
+    p = len(T)
+    rs = np.random.RandomState(case["seed"] % (2 ** 31 - 1))
+    idx = rs.permutation(p)[:mid.hint(1, p - 1, "nsub", case["seed"])]
+    Rs = ctx.lib(sdof.response_series, a, dt, _mk_periods(T[idx], s, case["container"]), xi)
+    for j, (name, S) in enumerate(zip(("displacement", "velocity", "acceleration"), scales)):
+        _close_rows(ctx, np.asarray(Rs[j])[s:], np.asarray(R1[j])[s:][idx], tol * S[idx], "%s: %s rows of the sub-list %s" % (what, name, idx.tolist()))
+        if s:
+            _equal_rows(ctx, np.asarray(Rs[j])[:1], np.asarray(R1[j])[:1], "%s: T=0 row of %s, sub-list call" % (what, name))
+
+
+# --- many periods, and large periods x samples products -----------------------------------------------------------
+
+SUB_CAP = 48   # longest sub-list of a batch comparison (the drawn clauses verify lists of <= 7 periods, 'many-periods' swaps)
+
+
+def _mk_wide_case(npd, n, idx, lead0, tag):
+    sd = int(mid.hu("c02-wide", tag, gen.run_seed(), idx, npd, n) * (2 ** 31 - 2))
+    rlo = mid.hlog(0.2, 200.0, "rlo", sd)
+    c = {"np": int(npd), "n": int(n), "seed": sd, "kind": mid.hpick(mid.RECORD_KINDS[:3], "kind", sd), "dt": mid.dt_from_hash(sd),
+         "rlo": rlo, "rhi": min(2e4, rlo * mid.hlog(30.0, 1e5, "rspan", sd)), "xi": mid.xi_from_hash(sd), "lead0": bool(lead0),
+         "container": mid.hpick(["ndarray", "list", "tuple"], "cont", sd), "int": mid.hu("int", sd) < 0.2,
+         "burst": mid.hint(3, 60, "burst", sd) if mid.hu("has-burst", sd) < 0.6 else 0}
+    if c["int"]:
+        c["dt"] = 1.0 if mid.hu("intdt", sd) < 0.5 else 0.5
+    return c
+
+
+def _groups(p, ncalls, sd):
+    """Index arrays (sub-lists of the period list) for the batch comparison, and whether they cover every row.
+    All rows (a hash permutation cut into sub-lists of hash-chosen lengths <= SUB_CAP) when that takes about `ncalls` calls;
+    otherwise the seam rows (first, last, around multiples of 2^k) and hash-chosen rows.  Always one single-period call."""
+    rs = np.random.RandomState(sd % (2 ** 31 - 1))
+    hi_sz = int(min(SUB_CAP, max(3, p // 3)))
+    lo_sz = max(1, hi_sz // 3)
+    mean_sz = 0.5 * (lo_sz + hi_sz)
+    full = p <= mean_sz * max(1, ncalls - 1)
+    if full:
+        rows = rs.permutation(p)
+    else:
+        seams = mid.seam_rows(p, sd, extra=12, tag="c02")
+        rs.shuffle(seams)
+        rows = np.array(seams[:int(mean_sz * max(1, ncalls - 1))], dtype=int)
+    out, i = [], 0
+    while i < len(rows):
+        k = int(rs.randint(lo_sz, hi_sz + 1))
+        out.append(np.array(rows[i:i + k], dtype=int))
+        i += k
+    out.append(np.array([int(rs.randint(0, p))], dtype=int))
+    return out, full
+
+
+def _wide_check(case, ctx, cfg, extras):
+    n, dt, xi, npd = case["n"], case["dt"], case["xi"], case["np"]
+    s = 1 if case["lead0"] else 0
+    a = _burst(mid.record(case["kind"], n, case["seed"]), case.get("burst"))
+    a[0] = 0.0
+    ints = None
+    if case["int"]:
+        rs = np.random.RandomState(case["seed"] % (2 ** 31 - 1))
+        ints = (rs.permutation(int(min(2e4 * dt, max(2 * npd, 50)))) + 1)[:npd]
+        T = ints.astype(float)
+    else:
+        T = np.array(mid.spread_ratios(npd, case["rlo"], case["rhi"], case["seed"])) * dt
+
+    def mk(idx):
+        return _mk_periods(T[idx], s, case["container"], None if ints is None else ints[idx])
+    P = mk(np.arange(npd))
+    what = "%d periods%s x %d samples" % (npd, " + leading 0" if s else "", n)
+    ctx.cls(_oct("P", npd), _oct("n", n), _oct("PxN", npd * n), "lead0" if s else None, "int-periods" if case["int"] else None,
+            "container=" + case["container"], "end-burst" if case.get("burst") else None)
+    ctx.nt(True)
+    R1 = ctx.lib(sdof.response_series, a, dt, P, xi)
+    for x, name in zip(R1, ("displacement", "velocity", "acceleration")):
+        ctx.shape(x, (npd + s, n), "%s: response %s" % (what, name))
+    R1 = [np.asarray(x) for x in R1]
+    scales = _escales(a, dt, T, xi, R1[0][s:], R1[1][s:])
+    tol = _tol_n(n)
+    _check_spectra_vs_series(ctx, a, dt, P, T, s, xi, R1, scales, tol, what)
+    # batch: sub-lists against the whole list
+    ncalls = max(2, int(cfg["sub_budget"] // n))
+    groups, full = _groups(npd, ncalls, case["seed"])
+    ctx.cls("batch=all-rows" if full else "batch=seam-rows")
+    n_spec = 2 if n <= 5000 else 1
+    mu, mv = _rowmax(R1[0]), _rowmax(R1[1])
+    for gi, idx in enumerate(reversed(groups)):   # the single-period call first
+        Rs = ctx.lib(sdof.response_series, a, dt, mk(idx), xi)
+        w8 = "%s: sub-list of %d periods (rows %s%s)" % (what, len(idx), idx[:5].tolist(), "..." if len(idx) > 5 else "")
+        for j, (name, S) in enumerate(zip(("displacement", "velocity", "acceleration"), scales)):
+            _close_rows(ctx, np.asarray(Rs[j])[s:], R1[j][s:][idx], tol * S[idx], "%s: %s rows" % (w8, name))
+            if s:
+                _equal_rows(ctx, np.asarray(Rs[j])[:1], R1[j][:1], "%s: T=0 row of %s" % (w8, name))
+        if gi < n_spec:
+            ps = ctx.lib(sdof.pseudo_response_spectra, a, dt, mk(idx), xi)
+            ts = ctx.lib(sdof.true_response_spectra, a, dt, mk(idx), xi)
+            ctx.close(np.asarray(ps[0])[s:], mu[s:][idx], tol * scales[0][idx], "%s: pseudo S_d vs max|u| of the whole-list rows" % w8)
+            ctx.close(np.asarray(ts[0])[s:], mu[s:][idx], tol * scales[0][idx], "%s: true S_d vs max|u| of the whole-list rows" % w8)
+            ctx.close(np.asarray(ts[1])[s:], mv[s:][idx], tol * scales[1][idx], "%s: true S_v vs max|v| of the whole-list rows" % w8)
+    if extras:
+        rs = np.random.RandomState((case["seed"] + 5) % (2 ** 31 - 1))
+        perm = rs.permutation(npd)
+        Rp = ctx.lib(sdof.response_series, a, dt, mk(perm), xi)
+        for j, (name, S) in enumerate(zip(("displacement", "velocity", "acceleration"), scales)):
+            _close_rows(ctx, np.asarray(Rp[j])[s:], R1[j][s:][perm], tol * S[perm], "%s: %s rows of the permuted list" % (what, name))
+        _check_shift_causal_linear(ctx, a, dt, P, T, s, xi, R1, scales, case["seed"], what)
+
+
+def _c02_p_enum(tier, shard, nshards):
+    cfg = _c02_cfg(tier)
+    lo, hi, count, tag, mlim = cfg["p"]
+    sizes = sorted(set(gen.size_ladder(lo, hi, count, tag, mined_limit=mlim)) | {hi})
+    cases = []
+    for k, npd in enumerate(sizes):
+        for lead0 in (False, True):
+            n = mid.hlogint(cfg["pn"][0], cfg["pn"][1], "pn", gen.run_seed(), tag, npd, lead0)
+            cases.append(_mk_wide_case(npd, n, 2 * k + int(lead0), lead0, tag))
+    return _sharded(cases, shard, nshards, lambda c: c["n"] * (12.0 + 0.1 * c["np"]) * (6 + c["np"] / 30.0))
+
+
+@enum_clause(CLAUSES, "mid-range-periods", _c02_p_enum,
+             rule="period-count ladder: one count per logarithmic bin of [7, 3000] (10 bins; thorough [7, 6000], 24 bins), the end of the range "
+                  "and counts next to integer literals of the source under test, each with and without a leading 0; distinct unsorted periods "
+                  "(float ndarray / list / tuple, or python ints); records of 100-800 (2000) samples; every row is recomputed in sub-lists of "
+                  "<= 48 periods (a hash permutation cut at hash-chosen lengths) and in one single-period call; the whole list permuted; "
+                  "shift + causality + linearity on the whole list; spectra of the whole list and of two sub-lists; non-trivial = non-zero record",
+             oracle="metamorphic on the whole output: sub-list / permuted rows and spectra to (1e-10 + 16 eps n) of the energy-consistent "
+                    "robust scale; T=0 rows, shift and causality array_equal; spectra vs row-wise max|.| of the series",
+             exhaustive_note="one case per ladder count and leading-0 variant (the counts move with VERIF_SEED)", min_nontrivial=0.5, quick_shards=4)
+def mid_range_periods(case, ctx):
+    _wide_check(case, ctx, _c02_cfg(core.tier()), extras=True)
+
+
+def _c02_prod_enum(tier, shard, nshards):
+    cfg = _c02_cfg(tier)
+    lo, hi, count, tag = cfg["prod"]
+    pairs = gen.product_pairs(lo, hi, count, cfg["prod_p"], cfg["prod_n"], tag)
+    cases = [_mk_wide_case(npd, n, k, mid.hu("prod-lead0", gen.run_seed(), tag, k) < 0.5, tag) for k, (npd, n) in enumerate(pairs)]
+    return _sharded(cases, shard, nshards, lambda c: c["n"] * (12.0 + 0.1 * c["np"]))
+
+
+@enum_clause(CLAUSES, "mid-range-products", _c02_prod_enum,
+             rule="(periods x samples) ladder: one product per logarithmic bin of [1e5, 3e7] (10 bins; thorough [1e5, 6e7], 22 bins) and products "
+                  "just above integer literals of the source under test, split by hash into 8..3000 (6000) periods x 400..100 000 (300 000) "
+                  "samples; leading 0 in half of the cases; the whole list (series, pseudo and true spectra) against sub-lists of <= 48 periods: "
+                  "every row when about 1e5 (4e5) loop steps pay for it, otherwise the seam rows (first, last, around multiples of 2^5..2^12) "
+                  "and hash-chosen rows, always one single-period call; non-trivial = non-zero record",
+             oracle="metamorphic as 'mid-range-periods' (batch rows, T=0 rows, spectra vs row-wise max|.| of the series)",
+             exhaustive_note="one case per ladder product (products and splits move with VERIF_SEED)", min_nontrivial=0.5, quick_shards=4)
+def mid_range_products(case, ctx):
+    _wide_check(case, ctx, _c02_cfg(core.tier()), extras=False)
